@@ -30,8 +30,26 @@ OPTS = [
     "use_default_kwarg",
     "use_annotated",
     "field_constraints",
+    "snake_case_field",
 ]
-OPT_TAG = ["sn", "ud", "fo", "sd", "kw", "an", "fc"]
+OPT_TAG = ["sn", "ud", "fo", "sd", "kw", "an", "fc", "sc"]
+VIAS = ["own", "sibling", "owner"]  # where the `required` entry is written
+NAMES = ["plain", "alias", "keyword", "camel"]
+JSON_NAME = {"plain": "n", "alias": "foo-bar", "keyword": "class", "camel": "fooBar"}
+
+
+def py_name(v: dict) -> str:
+    return {"plain": "n", "alias": "foo_bar", "keyword": "class_", "camel": "foo_bar" if v["opts"]["sc"] else "fooBar"}[v["name"]]
+
+
+def norm_vec(v: dict) -> dict:
+    """fill the dimensions added later (stored witnesses / replays written before they existed)"""
+    v = dict(v)
+    v["opts"] = {**{t: False for t in OPT_TAG}, **v.get("opts", {})}
+    v.setdefault("via", "own")
+    v.setdefault("name", "plain")
+    v.setdefault("variant", 0)
+    return v
 DFLT = ["none", "null", "falsy", "truthy", "str", "listE", "listN", "dictE", "dictN"]
 TYS = ["scalar", "array", "object"]
 NULLSRC = ["js-no", "js-typelist", "oa-no", "oa-flag", "oa-typelist"]
@@ -74,6 +92,8 @@ def valid(v: dict) -> bool:
         return False  # no constraint keyword is routed for dict-typed members
     if v["opts"]["an"] and not v["opts"]["fc"]:
         return False  # generate() refuses use_annotated without field_constraints
+    if v["via"] != "own" and not v["inreq"]:
+        return False  # the allOf forms are only built for a listed member
     return True
 
 
@@ -107,9 +127,15 @@ def realise(v: dict) -> dict:
 
 def build_doc(v: dict) -> tuple[dict, str]:
     r = realise(v)
-    obj = {"type": "object", "properties": {"n": r["member"]}}
-    if v["inreq"]:
-        obj["required"] = ["n"]
+    name = JSON_NAME[v["name"]]
+    obj: dict = {"type": "object", "properties": {name: r["member"]}}
+    if v["via"] == "own":
+        if v["inreq"]:
+            obj["required"] = [name]
+    elif v["via"] == "sibling":  # an allOf item that carries only `required`
+        obj = {"allOf": [obj, {"required": [name]}]}
+    else:  # `required` on the schema that owns the allOf
+        obj = {"allOf": [obj], "required": [name]}
     if v["nullsrc"].startswith("oa"):
         return (
             {
@@ -129,7 +155,10 @@ def opts_of(v: dict) -> dict:
 
 def vec_key(v: dict) -> str:
     bits = "".join("1" if v["opts"][t] else "0" for t in OPT_TAG)
-    return f"{KIND_TAG[v['kind']]} {v['nullsrc']} {'req' if v['inreq'] else 'opt'} {v['dflt']} {v['ty']} {'con' if v['constr'] else 'nocon'} {bits}"
+    return (
+        f"{KIND_TAG[v['kind']]} {v['nullsrc']} {'req' if v['inreq'] else 'opt'} {v['dflt']} {v['ty']} "
+        f"{'con' if v['constr'] else 'nocon'} {bits} {v['via']} {v['name']}"
+    )
 
 
 # ---------------------------------------------------------------- observation of the rendered member
@@ -164,15 +193,29 @@ def _cls(val, default, has_default: bool) -> str:
     return "other"
 
 
-def observe(code: str, default, has_default: bool) -> dict | None:
-    """Shape of the member `n` of class `M` in the emitted module, or None when there is none."""
+def observe(code: str, default, has_default: bool, pyname: str = "n", jsonname: str = "n") -> dict | None:
+    """Shape of the member of class `M` in the emitted module, or None when there is none.
+    The member is `pyname: …` in a class body, or the entry `'jsonname': …` of a functional-syntax TypedDict."""
     tree = ast.parse(code)
     node = None
     for c in tree.body:
         if isinstance(c, ast.ClassDef) and c.name == "M":
             for s in c.body:
-                if isinstance(s, ast.AnnAssign) and isinstance(s.target, ast.Name) and s.target.id == "n":
+                if isinstance(s, ast.AnnAssign) and isinstance(s.target, ast.Name) and s.target.id == pyname:
                     node = s
+        elif (
+            isinstance(c, ast.Assign)
+            and len(c.targets) == 1
+            and isinstance(c.targets[0], ast.Name)
+            and c.targets[0].id == "M"
+            and isinstance(c.value, ast.Call)
+            and _name(c.value.func) == "TypedDict"
+            and len(c.value.args) == 2
+            and isinstance(c.value.args[1], ast.Dict)
+        ):
+            for k, val in zip(c.value.args[1].keys, c.value.args[1].values):
+                if isinstance(k, ast.Constant) and k.value == jsonname:
+                    node = ast.AnnAssign(target=ast.Name(id=pyname), annotation=val, value=None, simple=1)
     if node is None:
         return None
     sh = {"opt": 0, "nr": 0, "ann": 0, "con": 0, "asg": "none"}
@@ -296,6 +339,7 @@ def semantics(code: str, v: dict, real: dict, sh: dict | None) -> dict:
     omitted ∈ rejected|none|absent|dflt|other, shared (mutable default shared between instances)."""
     kind = v["kind"]
     has_default = v["dflt"] != "none"
+    jn, pn = JSON_NAME[v["name"]], py_name(v)
     out: dict = {"loads": "ok", "must": None, "null": None, "omitted": None, "shared": False, "present": True}
     if kind == "msgspec.Struct":
         # msgspec is not installed: authored reading of the AST. A Struct member without `=` must be
@@ -305,13 +349,13 @@ def semantics(code: str, v: dict, real: dict, sh: dict | None) -> dict:
             return {**out, "loads": "error:nomember"}
         asg = sh["asg"]
         out["null"] = bool(sh["opt"])
-        if asg == "none":
+        if asg in ("none", "field:nodefault"):  # `field(name='…')` carries no default
             out["must"], out["omitted"] = True, "rejected"
         else:
             out["must"] = False
             cls = asg.split(":")[-1].removeprefix("kw")
             out["omitted"] = cls if cls in ("none", "dflt") else "other"
-            if asg.startswith("lit:") and cls == "dflt" and isinstance(real["default"], (list, dict)) and real["default"]:
+            if asg.startswith(("lit:", "field:kw")) and cls == "dflt" and isinstance(real["default"], (list, dict)) and real["default"]:
                 out["loads"] = "error:msgspec-nonempty-mutable-default"
         return out
     try:
@@ -325,26 +369,27 @@ def semantics(code: str, v: dict, real: dict, sh: dict | None) -> dict:
             try:
                 inst = parse({})
                 out["must"] = False
-                out["omitted"] = _omitted_class(inst.n, real, has_default)
-                if isinstance(inst.n, (list, dict)):
+                val = getattr(inst, pn)
+                out["omitted"] = _omitted_class(val, real, has_default)
+                if isinstance(val, (list, dict)):
                     other = parse({})
-                    out["shared"] = inst.n is other.n or M().n is M().n
+                    out["shared"] = val is getattr(other, pn) or getattr(M(), pn) is getattr(M(), pn)
             except Exception as e:  # noqa: BLE001
                 if type(e).__name__ != "ValidationError":
                     raise
                 out["must"], out["omitted"] = True, "rejected"
             try:
-                out["null"] = parse({"n": None}).n is None
+                out["null"] = getattr(parse({jn: None}), pn) is None
             except Exception as e:  # noqa: BLE001
                 if type(e).__name__ != "ValidationError":
                     raise
                 out["null"] = False
             try:
-                parse({"n": real["present"]})
+                parse({jn: real["present"]})
             except Exception:  # noqa: BLE001
                 out["present"] = False
         elif kind == "dataclasses.dataclass":
-            f = {x.name: x for x in dataclasses.fields(M)}["n"]
+            f = {x.name: x for x in dataclasses.fields(M)}[pn]
             out["must"] = f.default is dataclasses.MISSING and f.default_factory is dataclasses.MISSING
             if out["must"]:
                 out["omitted"] = "rejected"
@@ -355,16 +400,18 @@ def semantics(code: str, v: dict, real: dict, sh: dict | None) -> dict:
                     pass
             else:
                 a, b = M(), M()
-                out["omitted"] = _omitted_class(a.n, real, has_default)
-                out["shared"] = isinstance(a.n, (list, dict)) and a.n is b.n
-            out["null"] = _admits_none(typing.get_type_hints(M, include_extras=True)["n"])
+                out["omitted"] = _omitted_class(getattr(a, pn), real, has_default)
+                out["shared"] = isinstance(getattr(a, pn), (list, dict)) and getattr(a, pn) is getattr(b, pn)
+            out["null"] = _admits_none(typing.get_type_hints(M, include_extras=True)[pn])
         else:  # TypedDict
             # The emitted module starts with `from __future__ import annotations`; CPython then
             # cannot see NotRequired[...] when it computes __required_keys__ (documented limitation,
             # PEP 655), so the resolved annotation is what type checkers and validators read.
-            hint = typing.get_type_hints(M, include_extras=True)["n"]
+            hints = typing.get_type_hints(M, include_extras=True)
+            tk = jn if jn in hints else pn  # functional syntax keeps the JSON name as key
+            hint = hints[tk]
             out["must"] = not _is_not_required(hint)
-            if "from __future__ import annotations" not in code and out["must"] != ("n" in M.__required_keys__):
+            if "from __future__ import annotations" not in code and out["must"] != (tk in M.__required_keys__):
                 out["loads"] = "error:inconsistent-keys"
             out["omitted"] = "rejected" if out["must"] else "absent"
             out["null"] = _admits_none(hint)
@@ -375,9 +422,9 @@ def semantics(code: str, v: dict, real: dict, sh: dict | None) -> dict:
     return out
 
 
-def member_line(code: str) -> str:
+def member_line(code: str, pyname: str = "n", jsonname: str = "n") -> str:
     for ln in code.splitlines():
-        if ln.strip().startswith("n:"):
+        if ln.strip().startswith((pyname + ":", repr(jsonname) + ":")):
             return ln.strip()
     return ""
 
@@ -430,7 +477,7 @@ def ir_of_captured() -> str | None:
                 key = b(importlib.import_module(modname)._has_field_assignment(f))
             return (
                 f"req={b(f.required)} nullable={n} hd={b(f.has_default)} thn={b(f.type_has_null)} "
-                f"sdn={b(f.strip_default_none)} dio={b(f.data_type.is_optional)} cons={cons} key={key}"
+                f"sdn={b(f.strip_default_none)} dio={b(f.data_type.is_optional)} cons={cons} alias={b(f.alias is not None)} key={key}"
             )
     return None
 
@@ -439,6 +486,7 @@ def run_vector(v: dict) -> dict:
     """One abstract vector through the real generator (runs in a worker process)."""
     _install_capture()
     _captured.clear()
+    v = norm_vec(v)
     doc, ift = build_doc(v)
     real = realise(v)
     r = e2e.run_generate(doc, input_file_type=ift, model=v["kind"], opts=opts_of(v))
@@ -449,11 +497,12 @@ def run_vector(v: dict) -> dict:
     except Exception as e:  # noqa: BLE001
         ir = f"error:{type(e).__name__}"
     try:
-        sh = observe(r.code, real["default"], v["dflt"] != "none")
+        sh = observe(r.code, real["default"], v["dflt"] != "none", py_name(v), JSON_NAME[v["name"]])
     except SyntaxError as e:
         return {"error": f"unparsable: {e}", "code": r.code}
     sem = semantics(r.code, v, real, sh)
-    return {"shape": shape_str(sh), "sh": sh, "sem": sem, "ir": ir, "line": member_line(r.code), "member": real["member"]}
+    return {"shape": shape_str(sh), "sh": sh, "sem": sem, "ir": ir, "line": member_line(r.code, py_name(v), JSON_NAME[v["name"]]),
+            "member": real["member"], "document": doc if v["via"] != "own" else None}
 
 
 def _init_worker(parent_scratch: str) -> None:
@@ -480,9 +529,9 @@ def run_vectors(vs: list[dict], workers: int = 14) -> list[dict]:
     return [x for c in res for x in c]
 
 
-def mk_vec(kind, ns, inreq, d, ty, con, bits, variant=0) -> dict:
-    return {"kind": kind, "nullsrc": ns, "inreq": bool(inreq), "dflt": d, "ty": ty, "constr": bool(con),
-            "opts": dict(zip(OPT_TAG, [bool(b) for b in bits])), "variant": variant}
+def mk_vec(kind, ns, inreq, d, ty, con, bits, variant=0, via="own", name="plain") -> dict:
+    return norm_vec({"kind": kind, "nullsrc": ns, "inreq": bool(inreq), "dflt": d, "ty": ty, "constr": bool(con),
+                     "opts": dict(zip(OPT_TAG, [bool(b) for b in bits])), "variant": variant, "via": via, "name": name})
 
 
 def all_vectors(kinds=None) -> list[dict]:
@@ -493,11 +542,28 @@ def all_vectors(kinds=None) -> list[dict]:
                 for d in DFLT:
                     for ty in ty_of(d):
                         for con in (False, True):
-                            for bits in itertools.product((False, True), repeat=len(OPT_TAG)):
-                                v = {"kind": kind, "nullsrc": ns, "inreq": inreq, "dflt": d, "ty": ty, "constr": con,
-                                     "opts": dict(zip(OPT_TAG, bits)), "variant": 0}
+                            for bits in itertools.product((False, True), repeat=7):
+                                v = mk_vec(kind, ns, inreq, d, ty, con, bits)
                                 if valid(v):
                                     out.append(v)
+    return out
+
+
+def renaming_vectors(kinds=None) -> list[dict]:
+    """Second exhaustive block (thorough tier, search): every listed member × where it is listed ×
+    kind of name × snake-case-field × {strict-nullable, use-default, force-optional}."""
+    out = []
+    for kind in kinds or KINDS:
+        for ns in NULLSRC:
+            for d in DFLT:
+                for ty in ty_of(d):
+                    for via in VIAS:
+                        for name in NAMES:
+                            for sc in (False, True):
+                                for sn, ud, fo in itertools.product((False, True), repeat=3):
+                                    v = mk_vec(kind, ns, True, d, ty, False, [sn, ud, fo, 0, 0, 0, 0, sc], via=via, name=name)
+                                    if valid(v):
+                                        out.append(v)
     return out
 
 
@@ -510,7 +576,7 @@ def driver_request(v: dict) -> str:
     bits = "".join("1" if v["opts"][t] else "0" for t in MODEL_OPTS)
     return (
         f"field.render {KIND_TAG[v['kind']]} {NULLMODE[v['nullsrc']]} {int(v['inreq'])} {v['dflt']} {v['ty']} "
-        f"{int(v['constr'])} {bits}"
+        f"{int(v['constr'])} {bits} {v['via']} {v['name']} {int(v['opts']['sc'])}"
     )
 
 
@@ -561,7 +627,7 @@ def clause_failures(v: dict, sem: dict, shape: str, ir_required: bool | None) ->
     omittable = (not R) or o["fo"] or (o["ud"] and D)
     none_default = v["dflt"] in ("none", "null")
     asg = shape.split(" asg=")[-1] if " asg=" in shape else ""
-    has_rendered_default = asg.startswith(("lit:", "Field:none", "Field:dflt", "Field:kw", "field:factory"))
+    has_rendered_default = asg.startswith(("lit:", "Field:none", "Field:dflt", "Field:kw", "field:factory", "field:kw"))
     out = []
     if not sem["loads"]:
         out.append({"clause": "class_creation", "mechanism": sem.get("loads_error", "exec_error")})
@@ -599,6 +665,8 @@ def clause_failures(v: dict, sem: dict, shape: str, ir_required: bool | None) ->
             mech = "strict_nullable_overrides_type_list"
         elif v["kind"] == "typing.TypedDict" and "nr=1" in shape:
             mech = "typeddict_notrequired_no_fallback"
+        elif v["nullsrc"] == "oa-flag" and o["sn"] and v["via"] != "own" and not D and v["ty"] != "scalar":
+            mech = "late_required_loses_strict_nullable"
         else:
             mech = "other"
         out.append({"clause": "nullable_accepts_null", "mechanism": mech})
@@ -608,8 +676,11 @@ def clause_failures(v: dict, sem: dict, shape: str, ir_required: bool | None) ->
 def evaluate(ck: Check, camps: dict, v: dict, r: dict, model: dict | None, record: bool = True) -> list[dict]:
     """Correspondence (ir / shape / sem) and the property oracle for one vector. Returns the
     classified oracle failures."""
+    v = norm_vec(v)
     key = vec_key(v) + f" var{v.get('variant', 0)}"
     inp = {"vector": v, "key": key, "member": r.get("member"), "line": r.get("line")}
+    if r.get("document"):
+        inp["document"] = r["document"]
     ci, cr, cs, co = camps["ir"], camps["render"], camps["sem"], camps["oracle"]
     co.evaluations += 1
     co.hit(f"kind:{KIND_TAG[v['kind']]}")
@@ -619,6 +690,8 @@ def evaluate(ck: Check, camps: dict, v: dict, r: dict, model: dict | None, recor
     for t in OPT_TAG:
         if v["opts"][t]:
             co.hit(f"opt:{t}")
+    co.hit(f"via:{v['via']}")
+    co.hit(f"name:{v['name']}")
     if "error" in r:
         if r.get("hang"):
             co.hit("hang(C01)")
@@ -704,7 +777,7 @@ def make_campaigns(ck: Check) -> dict:
 
 # minimised vectors of past model mistakes and of every defect family (run first)
 def corpus() -> list[dict]:
-    Z = [0] * 7
+    Z = [0] * 8
     def o(**k):
         return [1 if k.get(t) else 0 for t in OPT_TAG]
     return [
@@ -723,6 +796,12 @@ def corpus() -> list[dict]:
         mk_vec("dataclasses.dataclass", "oa-typelist", 1, "listE", "array", 1, o(ud=1, fc=1)),
         mk_vec("typing.TypedDict", "oa-flag", 0, "null", "object", 0, o(sn=1)),
         mk_vec("msgspec.Struct", "js-no", 1, "truthy", "scalar", 1, o(an=1, fc=1, fo=1)),
+        # required through an allOf sibling / the allOf owner, for names that are rewritten
+        *[mk_vec(k, "js-no", 1, "none", "scalar", 0, Z, via=via, name=nm)
+          for k in KINDS for via, nm in (("sibling", "alias"), ("sibling", "keyword"), ("owner", "alias"), ("owner", "keyword"))],
+        *[mk_vec(k, "oa-no", 1, "none", "scalar", 0, o(sc=1), via="sibling", name="camel") for k in KINDS],
+        mk_vec("pydantic_v2.BaseModel", "oa-flag", 1, "none", "array", 0, o(sn=1), via="sibling"),   # late required under strict-nullable
+        mk_vec("pydantic.BaseModel", "js-typelist", 1, "none", "scalar", 0, Z, via="owner", name="alias"),
     ]
 
 
@@ -740,7 +819,8 @@ def stratified(ck: Check, n: int) -> list[dict]:
         ty = rng.choice(ty_of(d))
         con = rng.chance(1, 3) and ty != "object"
         bits = [rng.chance(1, 3) for _ in OPT_TAG]
-        v = mk_vec(k, ns, r, d, ty, con, bits, variant=rng.below(6))
+        via = rng.choice(VIAS) if r else "own"
+        v = mk_vec(k, ns, r, d, ty, con, bits, variant=rng.below(6), via=via, name=rng.choice(NAMES))
         if v["opts"]["an"] and not v["opts"]["fc"]:
             v["opts"]["fc"] = True
         if valid(v):
@@ -761,6 +841,7 @@ def build_multi_doc(vs: list[dict]) -> tuple[dict, str]:
 
 
 def run_multi(vs: list[dict]) -> dict:
+    vs = [norm_vec(v) for v in vs]
     doc, ift = build_multi_doc(vs)
     kind = vs[0]["kind"]
     r = e2e.run_generate(doc, input_file_type=ift, model=kind, opts=opts_of(vs[0]))
@@ -803,8 +884,8 @@ def campaign_order(ck: Check, n: int) -> None:
     rng = ck.rng.fork("order")
     groups = [
         # the D7-msgspec consequence, minimal: required nullable member before a required one
-        [mk_vec("msgspec.Struct", "js-typelist", 1, "none", "scalar", 0, [0] * 7), mk_vec("msgspec.Struct", "js-no", 1, "none", "scalar", 0, [0] * 7)],
-        [mk_vec("dataclasses.dataclass", "js-no", 0, "str", "scalar", 0, [0] * 7), mk_vec("dataclasses.dataclass", "js-no", 1, "none", "scalar", 0, [0] * 7)],
+        [mk_vec("msgspec.Struct", "js-typelist", 1, "none", "scalar", 0, [0] * 8), mk_vec("msgspec.Struct", "js-no", 1, "none", "scalar", 0, [0] * 8)],
+        [mk_vec("dataclasses.dataclass", "js-no", 0, "str", "scalar", 0, [0] * 8), mk_vec("dataclasses.dataclass", "js-no", 1, "none", "scalar", 0, [0] * 8)],
     ]
     while len(groups) < n:
         kind = rng.choice(["dataclasses.dataclass", "msgspec.Struct"])
@@ -876,7 +957,7 @@ def known_findings(ck: Check) -> None:
             if "members" in r and bad_order([h for _, h in r["members"]]):
                 ck.known(f["id"], f["what"])
             continue
-        w = f["witness"]["vector"]
+        w = norm_vec(f["witness"]["vector"])
         probe = Check(ck.prop, ck.tier)
         probe.findings = []
         camps = make_campaigns(probe)
@@ -893,7 +974,7 @@ def search_exhaustive(ck: Check) -> None:
     """Targeted search when a theorem or a correspondence broke and the sampled vectors showed no
     oracle failure: the space is finite, so sweep it (all kinds, all option vectors)."""
     camps = {k: ck.campaign("search: " + k) for k in ("ir", "render", "sem", "oracle")}
-    vs = all_vectors()
+    vs = renaming_vectors() + all_vectors()
     for i in range(0, len(vs), 12000):
         run_batch(ck, camps, vs[i : i + 12000])
         if ck.failures:
@@ -916,14 +997,18 @@ def run(ck: Check) -> None:
     if quick:
         run_batch(ck, camps, stratified(ck, 1500))
     else:
-        vs = all_vectors()
+        vs = all_vectors() + renaming_vectors()
         rng = ck.rng.fork("variants")
         for v in vs:
             v["variant"] = rng.below(6)
         for i in range(0, len(vs), 20000):
             run_batch(ck, camps, vs[i : i + 20000])
     campaign_order(ck, 200 if quick else 4000)
-    ck.notes["space"] = {"valid_vectors_total": len(all_vectors()) if not quick else 105600, "tier_covers": "exhaustive" if not quick else "stratified sample"}
+    ck.notes["space"] = {
+        "base_block": "kind x dialect/null-source x required x default class x type x constraint x 7 options (own required list, plain name): 105600 valid vectors",
+        "renaming_block": f"listed members x where listed (3) x name kind (4) x snake-case-field x {{strict-nullable, use-default, force-optional}}: {len(renaming_vectors()) if not quick else 124800} vectors",
+        "tier_covers": "both blocks exhaustively" if not quick else "stratified sample over the product of all dimensions + corpus",
+    }
     ck.search_hooks.append(search_exhaustive)
     known_findings(ck)
 
@@ -941,6 +1026,7 @@ def replay(ck: Check, path: str) -> int:
     if not v:
         print("replay: no vector in the replay file")
         return 2
+    v = norm_vec(v)
     camps = make_campaigns(ck)
     r = run_vector(v)
     rep = ck.driver.run([driver_request(v)])[0]
